@@ -14,7 +14,7 @@
 (4) Damage sweep: single bit flips over the checksummed bytes of the undo file (this module's own python reader of the
     format says which bytes those are): plain e2undo must exit non-zero with zero write-class calls on the device;
     -n never writes."""
-import os, sys, re, json, random, shutil, subprocess, time, struct, hashlib, ctypes, concurrent.futures as cf
+import os, sys, re, json, random, threading, shutil, subprocess, time, struct, hashlib, ctypes, concurrent.futures as cf
 from common import VERIF, fast_tmp, seed, die_broken, NPROC, tool_env, run as crun
 import build, tlc as T, tracecheck
 from evidence import Evidence, Verdict
@@ -144,7 +144,7 @@ MC_THOROUGH = dict(N=8, MaxLen=10, TdbSizes="{1, 2, 4}", BlkSizes="{1, 2, 4}", O
                    MaxOps=2, MaxRuns=2, MaxSpan=3)
 MC_SIM = dict(N=16, MaxLen=20, TdbSizes="{1, 2, 4}", BlkSizes="{1, 2, 4}", Offsets="{0, 1, 3}", KpbPerG=2, MaxExt=3, MaxOps=9,
               MaxRuns=3, MaxSpan=5)
-INVS = ["TypeOK", "U1", "U2", "U3", "R1", "R2", "Layout"]
+INVS = ["TypeOK", "U1", "U2", "U3", "R1", "R2", "Layout", "AppendPos"]
 
 
 def model_check(ev, tier, work, vd):
@@ -366,8 +366,10 @@ def trace_cfg(work, n, literal=()):
     with or without the deviations are listed (a failure stops TLC: VIOLATION); the property invariants U1-U3 are evaluated by
     Trace_UndoIo after every line and reported as PROPFAIL lines, so that TLC goes on matching the rest of the history."""
     cfg = os.path.join(work, "Trace_UndoIo_%d%s.cfg" % (n, "".join("_" + d for d in literal)))
-    consts = dict(N=n, MaxLen=n + 8, TdbSizes="{1}", BlkSizes="{1}", Offsets="{0}", KpbPerG=64, MaxExt=512, MaxOps=1000000,
-                  MaxRuns=1000000, MaxSpan=1)
+    # MaxLen: the calls of a history stay below n + 8 granules; e2undo of a file whose keys are in another unit than its header
+    # announces (DevChanUnits) writes at key * unit + offset, up to max(API_BS) times further out
+    consts = dict(N=n, MaxLen=(max(API_BS) * (n + 8) + max(API_TDB) + 8) if n < 100 else n + 8, TdbSizes="{1}", BlkSizes="{1}", Offsets="{0}",
+                  KpbPerG=64, MaxExt=512, MaxOps=1000000, MaxRuns=1000000, MaxSpan=1)
     consts.update(DEVS)
     for d in literal:
         consts[d] = "TRUE"
@@ -383,9 +385,15 @@ CONF_DEVS = ("DevAbsTiling", "DevChanUnits")
 API_MOD = os.path.join(SPEC, "Trace_UndoIo.tla")
 
 
+_TLC_SLOTS = threading.BoundedSemaphore(JOBS)
+
+
 def _api_chunk(args):
-    cfg, path, nlines = args
-    r = T.tlc(API_MOD, cfg, workers=1, timeout=1500, env={"TRACE": path}, xmx="3g")
+    mod, cfg, path, nlines = args
+    with _TLC_SLOTS:
+        r = T.tlc(mod, cfg, workers=1, timeout=1500, env={"TRACE": path}, xmx="3g")
+    if os.environ.get("C12_DEBUG"):
+        sys.stderr.write("chunk %s: %d lines %.1fs\n" % (path, nlines, r.wall))
     o = r.out
     accepted = (r.rc == 0 and r.violated is None and r.error is None)
     rejected = bool(re.search(r"postcondition|Invariant \S+ is violated", o, re.I)) and not re.search(
@@ -395,9 +403,9 @@ def _api_chunk(args):
         res["broken"] = r.error or "TLC evaluation error"
         return res
     res["propfail"] = sorted({(int(a), b, tuple(sorted(re.findall(r'"(\w+)"', c)))) for a, b, c in
-                              re.findall(r'<<"PROPFAIL", (\d+), "(\w+)", \{([^}]*)\}>>', o)})
-    res["cat"] = set(re.findall(r'<<"CAT", "(\w+)">>', o))
-    m = re.search(r'<<"CATALOGUE", \{([^}]*)\}>>', o)
+                              re.findall(r'<<\s*"PROPFAIL",\s*(\d+),\s*"(\w+)",\s*\{([^}]*)\}\s*>>', o)})
+    res["cat"] = set(re.findall(r'<<\s*"CAT",\s*"(\w+)"\s*>>', o))
+    m = re.search(r'<<\s*"CATALOGUE",\s*\{([^}]*)\}\s*>>', o)
     res["catalogue"] = set(re.findall(r'"(\w+)"', m.group(1))) if m else set()
     if not accepted:
         if r.violated and r.violated != "POSTCONDITION":
@@ -411,8 +419,10 @@ def _api_chunk(args):
     return res
 
 
-def api_validate(tbs, cfg, workdir, chunk_lines):
-    """tbs: behaviours (lists of lines).  Returns dict(failures=[(behaviour, line, inv or None, tail)], propfail={behaviour:
+def api_validate(tbs, cfg, workdir, chunk_lines, mod=API_MOD):
+    """(own chunk runner: lib/tracecheck.validate blames the behaviour BEHIND the offending one when an invariant fails on the
+    last line of a behaviour, and never looks at the offending one again.)
+    tbs: behaviours (lists of lines).  Returns dict(failures=[(behaviour, line, inv or None, tail)], propfail={behaviour:
     [(line, inv, devs)]}, cat, catalogue, distinct, generated).  A chunk that stops at a failing behaviour is continued with
     the behaviours behind it."""
     chunks, cur, curlen = [], [], 0
@@ -431,13 +441,13 @@ def api_validate(tbs, cfg, workdir, chunk_lines):
             with open(pth, "w") as f:
                 for bi in chk:
                     f.write("\n".join(tbs[bi]) + "\n")
-            tasks.append((cfg, pth, sum(len(tbs[bi]) for bi in chk)))
+            tasks.append((mod, cfg, pth, sum(len(tbs[bi]) for bi in chk)))
         with cf.ThreadPoolExecutor(max_workers=JOBS) as ex:
             res = list(ex.map(_api_chunk, tasks))
         nxt = []
         for chk, r in zip(chunks, res):
             if r["broken"]:
-                die_broken("TLC failed on an API trace chunk: %s\n%s" % (r["broken"], r["tail"][-1500:]))
+                die_broken("TLC failed on a trace chunk (%s): %s\n%s" % (os.path.basename(mod), r["broken"], r["tail"][-1500:]))
             out["distinct"] += r["distinct"]; out["generated"] += r["generated"]
             out["cat"] |= r["cat"]; out["catalogue"] |= r["catalogue"]
             starts = []; pos = 0
@@ -528,15 +538,19 @@ def api_conformance(ev, vd, tier, work, b, drv, rng):
     # validate, grouped by device size (N is a constant of the specification)
     nfail = 0; nval = 0; tot_lines = 0; nknown = 0
     cat = set(); catalogue = set()
+    groups = {}
     for n in sorted({bh[0] for bh in behs}):
         idx = [i for i in sorted(traces) if behs[i][0] == n]
-        if not idx:
-            continue
-        cfg = trace_cfg(work, n, CONF_DEVS)
-        sub = os.path.join(work, "tv%d" % n); os.makedirs(sub, exist_ok=True)
+        if idx:
+            sub = os.path.join(work, "tv%d" % n); os.makedirs(sub, exist_ok=True)
+            groups[n] = (idx, trace_cfg(work, n, CONF_DEVS), sub)
+    with cf.ThreadPoolExecutor(max_workers=max(1, len(groups))) as ex:       # the TLC processes themselves are capped by _TLC_SLOTS
+        gres = dict(zip(groups, ex.map(lambda n: api_validate([traces[i] for i in groups[n][0]], groups[n][1], groups[n][2],
+                                                              chunk_lines=450 if n < 100 else 100), groups)))
+    for n, (idx, cfg, sub) in groups.items():
+        res = gres[n]
         tbs = [traces[i] for i in idx]
         tot_lines += sum(len(t) for t in tbs)
-        res = api_validate(tbs, cfg, sub, chunk_lines=450 if n < 100 else 300)
         ev.cov["states"] += res["distinct"]; ev.cov["transitions"] += res["generated"]
         cat |= res["cat"]; catalogue |= res["catalogue"]
         nval += len(tbs)
@@ -797,6 +811,146 @@ def tool_scenarios(tier, rng):
     return sc
 
 
+# ---- the product part of the universe: enumerated by spec/UndoRunUniv.tla (Emit_UndoRunUniv), bound to argv here
+def _dbg(*cmds):
+    return S("debugfs", "-w", "-z", "{undo}", "-f", "@" + "\n".join(cmds), "{devq}")
+
+
+FSCK_RC = (0, 1, 2, 3)
+TOOL_OPS = {
+    "fsck_fy": lambda c: S("e2fsck", "-fy", "-z", "{undo}", "{devq}", okrc=FSCK_RC),
+    "fsck_y": lambda c: S("e2fsck", "-y", "-z", "{undo}", "{devq}", okrc=FSCK_RC),
+    "fsck_p": lambda c: S("e2fsck", "-p", "-z", "{undo}", "{devq}", okrc=FSCK_RC),
+    "fsck_fyD": lambda c: S("e2fsck", "-fyD", "-z", "{undo}", "{devq}", okrc=FSCK_RC),
+    "fsck_fyE": lambda c: S("e2fsck", "-fy", "-E", "bmap2extent", "-z", "{undo}", "{devq}", okrc=FSCK_RC),
+    "csum_on": lambda c: S("tune2fs", "-z", "{undo}", "-O", "metadata_csum", "{devq}"),
+    "csum_off_uninit": lambda c: S("tune2fs", "-z", "{undo}", "-O", "^metadata_csum,uninit_bg", "{devq}"),
+    "csum_seed_uuid": lambda c: S("tune2fs", "-z", "{undo}", "-O", "metadata_csum_seed", "-U", "01234567-89ab-cdef-0123-456789abcdef", "{devq}"),
+    "uuid_set": lambda c: S("tune2fs", "-z", "{undo}", "-U", "89abcdef-0123-4567-89ab-cdef01234567", "{devq}"),
+    "ext4_features": lambda c: S("tune2fs", "-z", "{undo}", "-O", "extent,huge_file,dir_nlink,extra_isize,metadata_csum", "{devq}"),
+    "quota_on": lambda c: S("tune2fs", "-z", "{undo}", "-O", "quota", "{devq}"),
+    "project_quota": lambda c: S("tune2fs", "-z", "{undo}", "-O", "project", "-Q", "prjquota", "{devq}"),
+    "flex_off": lambda c: S("tune2fs", "-z", "{undo}", "-O", "^flex_bg", "{devq}"),
+    "orphan_file_on": lambda c: S("tune2fs", "-z", "{undo}", "-O", "orphan_file", "{devq}"),
+    "journal_cycle": lambda c: S("tune2fs", "-z", "{undo}", "-O", "^has_journal", "-j", "{devq}"),
+    "label": lambda c: S("tune2fs", "-z", "{undo}", "-L", "c12dirty", "{devq}"),
+    "to32": lambda c: S("resize2fs", "-z", "{undo}", "-s", "{dev}"),
+    "to64": lambda c: S("resize2fs", "-z", "{undo}", "-b", "{dev}"),
+    "minimum": lambda c: S("resize2fs", "-z", "{undo}", "-M", "{dev}"),
+    "grow_dev": lambda c: S("resize2fs", "-z", "{undo}", "{dev}"),
+    "grow_stride": lambda c: S("resize2fs", "-z", "{undo}", "-S", "16", "{dev}", str(c["fsblocks"] + (c["devkib"] // c["bs"] - c["fsblocks"]) // 2)),
+    "shrink_half": lambda c: S("resize2fs", "-z", "{undo}", "{dev}", str(c["fsblocks"] // 2 + 200)),
+    "journal_write": lambda c: _dbg("jo", "jw -b %d,%d,%d {src}" % (c["fsblocks"] - 100, c["fsblocks"] - 101, c["fsblocks"] - 200), "jc",
+                                    "jo", "jw -b %d -r %d {src}" % (c["fsblocks"] - 102, c["fsblocks"] - 101), "jc"),
+    "journal_write_run": lambda c: _dbg("jo", "jw -b %d,%d {src}" % (c["fsblocks"] - 100, c["fsblocks"] - 200), "jc", "jr"),
+    "journal_run": lambda c: _dbg("jr"),
+    "edit": lambda c: _dbg("mkdir nd", "write {src} nd/new", "rm f4", "sif f0 mtime 12345"),
+    "mkfs_ext4_1k": lambda c: S("mke2fs", "-q", "-F", "-z", "{undo}", "-t", "ext4", "-b", "1024", "{dev}"),
+    "mkfs_plain_1k": lambda c: S("mke2fs", "-q", "-F", "-z", "{undo}", "-b", "1024", "{dev}"),
+    "dbg_tail_blocks": lambda c: _dbg("zap_block -p 0x55 %d" % (c["fsblocks"] - 1), "zap_block -p 0xaa %d" % (c["fsblocks"] - 200)),
+    "dbg_populate": lambda c: _dbg("mkdir a", "write {src} a/x"),
+    "tune_label": lambda c: S("tune2fs", "-z", "{undo}", "-L", "c12", "{devq}"),
+    "tune_journal_off": lambda c: S("tune2fs", "-z", "{undo}", "-O", "^has_journal", "{devq}"),
+    "tune_journal_on": lambda c: S("tune2fs", "-z", "{undo}", "-j", "{devq}"),
+    "resize_shrink_1k": lambda c: S("resize2fs", "-z", "{undo}", "{dev}", "3000"),
+}
+
+
+def spec_universe(work):
+    """the product universe, as TLC enumerates it from spec/UndoRunUniv.tla"""
+    out = os.path.join(work, "undorun_universe.json")
+    r = T.tlc(os.path.join(SPEC, "Emit_UndoRunUniv.tla"), os.path.join(SPEC, "Emit_UndoRunUniv.cfg"), workers=1, timeout=300, env={"OUT": out}, xmx="1g")
+    if not r.ok or not os.path.exists(out):
+        die_broken("TLC could not enumerate the tool-level universe (Emit_UndoRunUniv): %s\n%s" % (r.error, r.out[-1500:]))
+    u = json.load(open(out))
+    names = [e["name"] for e in u["universe"]]
+    if len(set(names)) != len(names) or not names:
+        die_broken("the tool-level universe has duplicate or no element names")
+    for e in u["universe"]:
+        for st in e["steps"]:
+            if st not in TOOL_OPS:
+                die_broken("operation %s of spec/UndoRunUniv.tla has no argv binding in checks/c12.py" % st)
+    return u
+
+
+def check_base_facts(b, work, facts):
+    """BaseFacts of UndoRunUniv.tla must be facts of the base images this check built (read with dumpe2fs)"""
+    for name, f in facts.items():
+        if name not in BASES:
+            die_broken("UndoRunUniv.tla names the base image %s, which checks/c12.py does not build" % name)
+        if not f["fs"]:
+            continue
+        rc, o, e = crun([os.path.join(b, tool(b, "dumpe2fs")), "-h", make_base(b, work, name)], env=tenv(b), timeout=60)
+        txt = o.decode("utf8", "replace")
+        feat = (re.search(r"Filesystem features:\s*(.*)", txt) or [None, ""])[1].split()
+        got = dict(fs=True, bs=int(re.search(r"Block size:\s*(\d+)", txt).group(1)) // 1024, journal="has_journal" in feat, csum="metadata_csum" in feat,
+                   extents="extent" in feat, flex="flex_bg" in feat, isize=int(re.search(r"Inode size:\s*(\d+)", txt).group(1)), bits64="64bit" in feat)
+        if got != {k: f[k] for k in got}:
+            die_broken("BaseFacts[%s] of UndoRunUniv.tla is %s but the image has %s" % (name, f, got))
+
+
+def spec_scenarios(u, tier, rng):
+    """universe elements -> scenarios; quick = the core elements + one seeded element of every stratum"""
+    el = sorted(u["universe"], key=lambda e: e["name"])
+    if tier == "quick":
+        chosen = [e for e in el if e["core"]]
+        strata = {}
+        for e in el:
+            if not e["core"]:
+                strata.setdefault(e["stratum"], []).append(e)
+        for k in sorted(strata):
+            chosen.append(rng.choice(strata[k]))
+    else:
+        chosen = el
+    out = []
+    for e in chosen:
+        args, fsblocks, kib = BASES[e["base"]]
+        bs = (u["facts"][e["base"]]["bs"] or 1)
+        ctx = dict(fsblocks=fsblocks, devkib=kib + e["tail"], bs=bs)
+        steps = []
+        for i, st in enumerate(e["steps"]):
+            if i > 0 and e["steps"][0].startswith("mkfs_"):
+                ctx = dict(fsblocks=(kib + e["tail"]) // 4 * 4, devkib=kib + e["tail"], bs=1)        # mke2fs -b 1024 took the whole device, rounded down to 4 KiB
+            steps.append(TOOL_OPS[st](ctx))
+        out.append(dict(name="u:" + e["name"], base=e["base"], steps=steps, state=e["state"], tail=e["tail"], spec=True, expect=sorted(e["expect"])))
+    return out
+
+
+def _ino_of(b, dev, off, name):
+    devq = dev + ("?offset=%d" % off if off else "")
+    rc, o, e = crun([os.path.join(b, tool(b, "debugfs")), "-R", "stat " + name, devq], env=tenv(b), timeout=60)
+    m = re.search(r"Inode:\s*(\d+)", o.decode("utf8", "replace"))
+    if not m:
+        die_broken("cannot prepare an image state: no inode for %s" % name)
+    return int(m.group(1))
+
+
+def prepare_state(b, sdir, dev, off, state, src):
+    """put the image into the state the recorded tool is to find (UndoRunUniv!States); plain debugfs, before the recorded run"""
+    devq = dev + ("?offset=%d" % off if off else "")
+    sb = open(dev, "rb").read()[off + 1024: off + 2048]
+    fsblocks = struct.unpack_from("<I", sb, 4)[0]
+    incompat = struct.unpack_from("<I", sb, 96)[0]
+
+    def dbg(cmds, tag):
+        sp = os.path.join(sdir, "state_%s.cmd" % tag)
+        open(sp, "w").write("\n".join(cmds) + "\n")
+        rc, o, e = crun([os.path.join(b, tool(b, "debugfs")), "-w", "-f", sp, devq], env=tenv(b), timeout=120)
+        if rc != 0:
+            die_broken("cannot prepare the image state %s: debugfs exit %d: %s" % (state, rc, e.decode("utf8", "replace")[-200:]))
+    if state in ("orphans", "nr_orphans"):
+        i2, i3 = _ino_of(b, dev, off, "f2"), _ino_of(b, dev, off, "d1/f3")
+        dbg(["unlink f2", "sif <%d> links_count 0" % i2, "sif <%d> size 1000" % i3, "sif <%d> dtime %d" % (i3, i2), "ssv last_orphan %d" % i3], "orph")
+    if state in ("needs_recovery", "nr_orphans"):
+        dbg(["jo", "jw -b %d,%d,%d %s" % (fsblocks - 50, fsblocks - 51, fsblocks - 300, src), "jc"], "nr")
+        sb = open(dev, "rb").read()[off + 1024: off + 2048]
+        if not struct.unpack_from("<I", sb, 96)[0] & 0x4:
+            die_broken("cannot prepare the image state %s: needs_recovery is not set after the journal write" % state)
+    if state == "restart":
+        cmds = (["sif f2 flags 0"] if incompat & 0x40 else []) + ["sif f2 block[%d] %d" % (i, 2147480000 + i) for i in range(15)]
+        dbg(cmds, "restart")
+
+
 def read_iotrace(path):
     ev = []
     if not os.path.exists(path):
@@ -948,6 +1102,11 @@ def run_scenario(b, work, sc, idx):
         damage_fs(dev, off, sc["damage"])
     src = os.path.join(sdir, "srcfile")
     open(src, "wb").write(payload_bytes("src" + sc["name"], 90000))
+    if sc.get("tail"):
+        with open(dev, "ab") as f:                 # the device is longer than the image by an odd number of KiB
+            f.write(payload_bytes("tail" + sc["name"], sc["tail"] * 1024))
+    if sc.get("state", "clean") != "clean":
+        prepare_state(b, sdir, dev, off, sc["state"], src)
     dev0 = open(dev, "rb").read()
     problems = []
     info = dict(name=sc["name"], steps=[])
@@ -972,6 +1131,8 @@ def run_scenario(b, work, sc, idx):
                     if a.startswith("@"):
                         st0["args"][i] = "@" + "\n".join(a[1:].split("\n")[:-extra])
     recorded = 0
+    facts = set(); prev_shape = None
+    nr_before = bool(len(dev0) >= off + 2048 and struct.unpack_from("<I", dev0, off + 1024 + 96)[0] & 0x4 and struct.unpack_from("<H", dev0, off + 1024 + 56)[0] == 0xEF53)
     for si, st in enumerate(sc["steps"]):
         argv = step_argv(b, st, dev, undo, off if st["tool"] != "mke2fs" and st["tool"] != "resize2fs" else 0)
         # debugfs scripts are passed as "@text"
@@ -986,6 +1147,10 @@ def run_scenario(b, work, sc, idx):
         env = trace_env(b, sdir, "run", extra)
         rc, o, e = crun(argv, env=env, timeout=300)
         info["steps"].append(dict(argv=[os.path.basename(argv[0])] + argv[1:], rc=rc))
+        txt = o.decode("utf8", "replace")
+        for fact, marker in (("journal_recovered", "recovering journal"), ("orphans_processed", "orphaned inode"), ("restarted", "Restarting e2fsck from the beginning")):
+            if marker in txt:
+                facts.add(fact)
         okrc = st.get("okrc", (0,))
         if sc.get("expect_refuse_step") == si:
             if rc == 0:
@@ -997,6 +1162,14 @@ def run_scenario(b, work, sc, idx):
         if rc not in okrc:
             return dict(skip="step %d (%s) exit %d: %s" % (si, os.path.basename(argv[0]), rc, (e.decode("utf8", "replace") or o.decode("utf8", "replace"))[-200:]), info=info)
         recorded += 1
+        # a later run of the chain appends to an undo file that holds a key ending in a short block
+        if os.path.exists(undo):
+            ufs = UndoFile(open(undo, "rb").read())
+            if ufs.hdr_ok:
+                shape = (ufs.nkeys, sum(k["size"] for k in ufs.keys), ufs.ok and any(k["size"] % ufs.tdb for k in ufs.keys))
+                if prev_shape and prev_shape[2] and shape[:2] > prev_shape[:2]:
+                    facts.add("short_key_then_append")
+                prev_shape = shape
     if not os.path.exists(undo):
         if open(dev, "rb").read() != dev0:
             problems.append(("tool:norecord", "%s changed the device although -z was given, and wrote no undo file" % sc["name"]))
@@ -1006,6 +1179,9 @@ def run_scenario(b, work, sc, idx):
     blob = open(os.path.join(sdir, "run.blob"), "rb").read() if os.path.exists(os.path.join(sdir, "run.blob")) else b""
     uf = UndoFile(open(undo, "rb").read())
     devA = open(dev, "rb").read()
+    if nr_before and len(devA) >= off + 2048 and not struct.unpack_from("<I", devA, off + 1024 + 96)[0] & 0x4:
+        facts.add("needs_recovery_cleared")
+    info["facts"] = sorted(facts)
     lines = [json.dumps({"e": "Reset", "a": 0, "b": 0, "m": 0})]
     if uf.hdr_ok and getattr(uf, "tdb", 0) >= 1024:
         try:
@@ -1082,13 +1258,19 @@ def scenario_replay_obj(sc):
 
 def tool_conformance(ev, vd, tier, work, b, rng):
     scs = tool_scenarios(tier, rng)
-    for name in sorted({s["base"] for s in scs}):
+    u = spec_universe(work)
+    spec_scs = spec_scenarios(u, tier, rng)
+    scs = scs + spec_scs
+    for name in sorted({s["base"] for s in scs} | set(u["facts"])):
         make_base(b, work, name)
+    check_base_facts(b, work, u["facts"])
     with cf.ThreadPoolExecutor(max_workers=JOBS) as ex:
         results = list(ex.map(lambda t: run_scenario(b, work, t[1], t[0]), enumerate(scs)))
     behs = []; owners = []
     skipped = []
-    for sc, r in zip(scs, results):
+    # (order only: the elements that are listed known findings go last, so that the chunks in front of them validate in one piece)
+    listed = lambda sc: any(k.startswith("tool:") and k.endswith(":" + sc["name"]) for k in vd.known)
+    for sc, r in sorted(zip(scs, results), key=lambda t: listed(t[0])):
         if "skip" in r:
             skipped.append("%s: %s" % (sc["name"], r["skip"])); continue
         for key, what in r["problems"]:
@@ -1098,30 +1280,32 @@ def tool_conformance(ev, vd, tier, work, b, rng):
         die_broken("too many tool scenarios could not run: " + "; ".join(skipped[:5]))
     sub = os.path.join(work, "tvtool"); os.makedirs(sub, exist_ok=True)
     mod, cfg = os.path.join(SPEC, "Trace_UndoRun.tla"), os.path.join(SPEC, "Trace_UndoRun.cfg")
-    res = tracecheck.validate(behs, mod, cfg, sub, chunk_lines=6000, timeout=1200, jobs=JOBS)
-    if res["broken"]:
-        die_broken("TLC failed on a tool trace chunk: %s\n%s" % (res["broken"][0]["error"], res["broken"][0]["out_tail"][-1500:]))
+    res = api_validate(behs, cfg, sub, chunk_lines=3000, mod=mod)
     ev.cov["states"] += res["distinct"]; ev.cov["transitions"] += res["generated"]
     nfail = 0
-    bad = set()
-    for f in res["failures"]:
-        bad.add(f["behaviour"])
-    # a chunk reports only its first failure: confirm every behaviour of a failing chunk on its own
-    if res["failures"]:
-        for bi in range(len(behs)):
-            rej, matched, inv, tail, _ = tracecheck.confirm(behs[bi], mod, cfg, sub)
-            if not rej:
-                continue
-            nfail += 1
-            sc, r = owners[bi]
-            k = matched if matched is not None else 0
-            what = {"WriteAhead": "a device block was overwritten before its old content was in the undo file (U1)",
-                    "ExactlyOnce": "a device block is recorded twice in the undo file (U1)",
-                    "UnitOk": "a key announces a position that is not where its data came from (U3)",
-                    "UndoContract": "e2undo broke its contract (restore / refuse without writing / -n never writes / needs-check mark)"}.get(inv, "trace rejected")
-            vd.violation("tool:%s:%s" % (inv or "rejected", sc["name"]), "%s in scenario %s (%s) at event %d; e2undo exit %s restored %s" %
-                         (what, sc["name"], " ; ".join(" ".join(s["argv"][:6]) for s in r["info"]["steps"])[:300], k, r["info"].get("e2undo_exit"), r["info"].get("restored")),
-                         dict(scenario_replay_obj(sc), info=r["info"], event=behs[bi][k] if k < len(behs[bi]) else None))
+    # each failing behaviour is confirmed on its own before it is reported
+    for bi, k0, inv0, tail0 in res["failures"]:
+        rr = api_validate([behs[bi]], cfg, sub, chunk_lines=10 ** 9, mod=mod)
+        if not rr["failures"]:
+            continue
+        _, matched, inv, tail = rr["failures"][0]
+        nfail += 1
+        sc, r = owners[bi]
+        k = matched if matched is not None else 0
+        what = {"WriteAhead": "a device block was overwritten before its old content was in the undo file (U1)",
+                "ExactlyOnce": "a device block is recorded twice in the undo file (U1)",
+                "UnitOk": "a key announces a position that is not where its data came from (U3)",
+                "UndoContract": "e2undo broke its contract (restore / refuse without writing / -n never writes / needs-check mark)"}.get(inv, "trace rejected")
+        vd.violation("tool:%s:%s" % (inv or "rejected", sc["name"]), "%s in scenario %s (%s) at event %d; e2undo exit %s restored %s" %
+                     (what, sc["name"], " ; ".join(" ".join(s["argv"][:6]) for s in r["info"]["steps"])[:300], k, r["info"].get("e2undo_exit"), r["info"].get("restored")),
+                     dict(scenario_replay_obj(sc), info=r["info"], event=behs[bi][k] if k < len(behs[bi]) else None))
+    # an element of the enumerated universe counts only if its run reached what UndoRunUniv!Expect says
+    for sc, r in owners:
+        miss = sorted(set(sc.get("expect", [])) - set(r["info"].get("facts", [])))
+        if miss and not vd.viol:
+            die_broken("universe element %s did not reach %s (steps: %s)" % (sc["name"], ", ".join(miss), json.dumps(r["info"]["steps"])[:600]))
+    ev.cov["tool_universe_elements"] = len(u["universe"]); ev.cov["tool_universe_run"] = len(spec_scs)
+    ev.cov["tool_universe_strata"] = len({e["stratum"] for e in u["universe"]})
     ev.cov["tool_scenarios"] = len(behs); ev.cov["tool_scenarios_skipped"] = skipped
     ev.cov["tool_trace_events"] = sum(len(x) for x in behs)
     ev.cov["traces_validated_against_impl"] += len(behs) - nfail
